@@ -13,6 +13,19 @@ CLAIMS = {
     note='trusted base: clang 14 front end + record layout, jpfacts serializer, jpv rules; Go bindings out of reach'),
 }
 
+CLAIMS['C17'] = dict(
+    technique='static analysis: pointer-provenance alignment analysis of every pointer cast and interval analysis of constant-extent subscripts over the instantiated AST of five configurations (incl. Cortex-M0+ and AArch64 parses)',
+    category='other',
+    text='Decides the structural mechanisms the property names: no pointer conversion in library code produces a pointer less aligned than its pointee type requires (byte-buffer overlays must have alignment 1 and no padding); every compile-time-determined subscript of a fixed-size array is inside its extent for every template instantiation and word size. It does not decide general UB-freedom nor run-time-indexed accesses (counted, listed as undecided).',
+    design_ref='DESIGN.md 3/C17',
+    note='trusted base: clang 14 front end/layout, jpfacts, jpv rules; assumes the documented set_length/allocate/unmarshal protocol; ARMv6-M assembly bodies and Go callers not analysed')
+CLAIMS['C20'] = dict(
+    technique='static effect analysis: undefined-symbol sets of objects compiled with the Makefile flags; root classification of every store/memcpy/memset destination on mem2reg LLVM IR; AST escape analysis of mutable globals; assembly section/instruction scan',
+    category='proof',
+    text='Every write in every function of every configuration is shown to target the function own stack or argument-reachable memory (load-time initialisers excepted, which may write only the dispatch table and const objects); all external references are memory primitives or compiler helpers; hence no shared mutable state exists after load and concurrent calls on distinct outputs commute. Interleavings are discharged by absence of shared state, not explored.',
+    design_ref='DESIGN.md 3/C20',
+    note='trusted base: clang/LLVM 14 code generation and mem2reg, llvm-nm/objdump, jpir root classifier; assumes re-entrant callbacks; ARMv6-M assembly bodies not analysed; built with clang rather than arm-none-eabi-g++')
+
 NA = {
  'C03': 'bit-equality of assembly and C++ back ends over 2^768 inputs is a numerical equivalence: needs execution or a solver (other families); structural asm facts are decided under C17/C18/C20',
  'C13': 'acceptance/rejection is the value of a pairing-product equation; no structural clause beyond the sign/verify delegation decided under C14',
